@@ -681,6 +681,9 @@ class FileSet:
             matches = list(
                 self.match(other, start, end, max_interval=max_interval)
             )
+        if len(matches) == 0:
+            # nothing overlaps: there is nothing to load
+            return
         primaries, secondaries = zip(*matches)
 
         # We have to consider the following to make the align method work
